@@ -2,7 +2,7 @@
    Statements only; proofs in Proofs/PegEscape.v (on the grammar regenerated from akn.peg). *)
 Require Import BB.Base.Str BB.Base.Dict BB.Model.PegSyntax BB.Model.Peg BB.Model.Types BB.Gen.Grammar.
 Require Import BB.Proofs.Totality BB.Proofs.PegEscape BB.Proofs.EscapedLine BB.Proofs.EscapedHeading BB.Proofs.EscapedNum.
-Require Import BB.Base.Xml BB.Model.Eid BB.Model.EidSpec BB.Model.PreParse BB.Model.XmlGen BB.Model.Convert BB.Gen.TablesParser BB.Gen.TablesLibs BB.Proofs.PlainLineConvert BB.Proofs.HierElement BB.Proofs.HierElementConvert.
+Require Import BB.Base.Xml BB.Model.Eid BB.Model.EidSpec BB.Model.PreParse BB.Model.XmlGen BB.Model.Convert BB.Gen.TablesParser BB.Gen.TablesLibs BB.Proofs.PlainLineConvert BB.Proofs.HierElement BB.Proofs.HierElementConvert BB.Proofs.HierNoHeading BB.Proofs.HierNoHeadingConvert.
 
 (* grammar level, for every non-empty string of scalar values without a newline, every position
    and any sufficient fuel: inline+ on the character-by-character escaped string consumes exactly
@@ -98,3 +98,17 @@ Example C13_escaped_hier_element_example :
   = OkR (hier_x (of_string "part") [(EID, of_string "part_2")] [(EID, of_string "part_2__p_1")]
                 (of_string "2") (of_string "**{{ SEC - \\ }}") (of_string "PART 1 - //x// {{^")).
 Proof. vm_compute. reflexivity. Qed.
+
+
+(* ... and in the element without a heading (`KEYWORD num`, any number of blank lines, the indented line) *)
+Theorem C13_escaped_hier_element_without_heading_converts : forall uri prefix kw n t k b root_meta att_meta,
+  assoc_str uri meta_templates = Some (root_meta, att_meta) ->
+  In kw hier_keywords ->
+  num_ok n -> Forall (fun c => c <> TAB) n -> py_isspace (last n 0) = false -> clean_num n <> [] -> valid_text n = true ->
+  escapable t -> (1 <= k)%nat ->
+  let tag := hier_name kw in
+  let cand := candidate prefix tag (clean_num n) in
+  convert uri (of_string "hier_element") prefix (kw ++ 32 :: n ++ NL :: repeat NL b ++ repeat SP k ++ esc t ++ [NL])
+  = OkR (hier_x_nh tag [(EID, cand)] [(EID, cand ++ DUSCORE ++ P1)] n t).
+Proof. exact escaped_hier_element_converts_nh. Qed.
+Print Assumptions C13_escaped_hier_element_without_heading_converts.
